@@ -451,25 +451,33 @@ func r18_5(c *RC) {
 		c.Anchor("model.AddrSpec.ReadFromSocks5/WriteToSocks5")
 		return
 	}
+	// the reader may be split into stages and a read-n-bytes helper
+	rdFamily := withHelpers(p, rd, 3)
 	types1 := func(fn *ssa.Function, reader bool) []int64 {
 		set := map[int64]bool{}
-		instrs(fn, func(_ *ssa.BasicBlock, _ int, in ssa.Instruction) {
-			switch x := in.(type) {
-			case *ssa.BinOp:
-				if reader && x.Op == token.EQL {
-					if k, ok := constInt(x.Y); ok && (strings.HasSuffix(x.X.Type().String(), "uint8") || x.X.Type().String() == "byte") {
-						set[k] = true
+		fam := []*ssa.Function{fn}
+		if reader {
+			fam = rdFamily
+		}
+		for _, ff := range fam {
+			instrs(ff, func(_ *ssa.BasicBlock, _ int, in ssa.Instruction) {
+				switch x := in.(type) {
+				case *ssa.BinOp:
+					if reader && x.Op == token.EQL {
+						if k, ok := constInt(x.Y); ok && (strings.HasSuffix(x.X.Type().String(), "uint8") || x.X.Type().String() == "byte") {
+							set[k] = true
+						}
+					}
+				case *ssa.Call:
+					if !reader && strings.HasSuffix(calleeID(x), "bytes.Buffer).WriteByte") {
+						if k, ok := x.Common().Args[1].(*ssa.Const); ok && k.Value != nil && k.Value.Kind() == constant.Int {
+							v, _ := constant.Int64Val(k.Value)
+							set[v] = true
+						}
 					}
 				}
-			case *ssa.Call:
-				if !reader && strings.HasSuffix(calleeID(x), "bytes.Buffer).WriteByte") {
-					if k, ok := x.Common().Args[1].(*ssa.Const); ok && k.Value != nil && k.Value.Kind() == constant.Int {
-						v, _ := constant.Int64Val(k.Value)
-						set[v] = true
-					}
-				}
-			}
-		})
+			})
+		}
 		var out []int64
 		for k := range set {
 			out = append(out, k)
@@ -491,13 +499,24 @@ func r18_5(c *RC) {
 	}
 	// lengths in reader: make([]byte, 4) / 16 / int(addrLen[0])
 	lens := map[int64]bool{}
-	instrs(rd, func(_ *ssa.BasicBlock, _ int, in ssa.Instruction) {
-		if a, ok := in.(*ssa.Alloc); ok {
-			if arr, ok := a.Type().(*types.Pointer).Elem().(*types.Array); ok {
-				lens[arr.Len()] = true
+	for _, ff := range rdFamily {
+		ff := ff
+		instrs(ff, func(_ *ssa.BasicBlock, _ int, in ssa.Instruction) {
+			switch a := in.(type) {
+			case *ssa.Alloc:
+				if arr, ok := a.Type().(*types.Pointer).Elem().(*types.Array); ok {
+					lens[arr.Len()] = true
+				}
+			case *ssa.MakeSlice:
+				// make([]byte, n) in a read-n-bytes helper: the sizes its callers ask for
+				for _, l := range LeavesIP(p, ff, a.Len, 0) {
+					if k, ok := constInt(l); ok {
+						lens[k] = true
+					}
+				}
 			}
-		}
-	})
+		})
+	}
 	if lens[4] && lens[16] && lens[2] {
 		c.OK("addr-lengths", rd.Pos(), "IPv4 4 bytes, IPv6 16 bytes, port 2 bytes")
 	} else {
@@ -505,22 +524,24 @@ func r18_5(c *RC) {
 	}
 	// port: reader (p[0]<<8)|p[1]; writer >>8 then &0xff
 	shl := false
-	instrs(rd, func(_ *ssa.BasicBlock, _ int, in ssa.Instruction) {
-		if bo, ok := in.(*ssa.BinOp); ok && bo.Op == token.SHL {
-			if k, ok := constInt(bo.Y); ok && k == 8 {
-				// the shifted operand must be element 0
-				for _, l := range Leaves(bo.X, nil) {
-					if u, ok := l.(*ssa.UnOp); ok {
-						if ia, ok := u.X.(*ssa.IndexAddr); ok {
-							if idx, ok := constInt(ia.Index); ok && idx == 0 {
-								shl = true
+	for _, ff := range rdFamily {
+		instrs(ff, func(_ *ssa.BasicBlock, _ int, in ssa.Instruction) {
+			if bo, ok := in.(*ssa.BinOp); ok && bo.Op == token.SHL {
+				if k, ok := constInt(bo.Y); ok && k == 8 {
+					// the shifted operand must be element 0
+					for _, l := range Leaves(bo.X, nil) {
+						if u, ok := l.(*ssa.UnOp); ok {
+							if ia, ok := u.X.(*ssa.IndexAddr); ok {
+								if idx, ok := constInt(ia.Index); ok && idx == 0 {
+									shl = true
+								}
 							}
 						}
 					}
 				}
 			}
-		}
-	})
+		})
+	}
 	var order []string
 	instrs(wr, func(_ *ssa.BasicBlock, _ int, in ssa.Instruction) {
 		if call, ok := in.(*ssa.Call); ok && strings.HasSuffix(calleeID(call), "bytes.Buffer).WriteByte") {
